@@ -313,7 +313,7 @@ def gen_cases(tier, seed):
     # injected inside the library; the operations commute (different sources), so the end state is known
     for k in range(4 if tier == "quick" else 40):
         for pop in (0, 1):
-            cases.append({"id": "threads-%d-%s" % (k, "population" if pop else "cache"), "kind": "threads", "sig": ["threads", k, pop], "k": k, "pop": pop,
+            cases.append({"id": "threads-%d-%s" % (k, "population" if pop else "cache"), "kind": "threads", "own_worker": True, "all_envs": True, "sig": ["threads", k, pop], "k": k, "pop": pop,
                           "threads": 2 + k % 3, "per_thread": 12 if tier == "quick" else 60})
     return cases
 
@@ -347,7 +347,7 @@ def run_threads_case(case, ctx):
                         else:
                             b.set(h.nid(0), e, info, info["not_on_or_after"])
             return run
-        res, errs, stats = interleave.run_threads([worker(t) for t in range(n)], "%s/%s" % (ctx.seed, case["id"]), p=0.2)
+        res, errs, stats = interleave.run_threads_regimes([worker(t) for t in range(n)], "%s/%s" % (ctx.seed, case["id"]))
         counters["yields_injected"] = stats["yields_injected"]
         counters["concurrent_sets"] = n * m
         for e in errs:
